@@ -27,9 +27,9 @@ Record inputs := {
   i_clients : Z          (* len(clients), a Go int *)
 }.
 
-(* ---- the heuristic part: allocation.go lines 40-145, result = the float [next]
-   before the clamps; None = integer division by zero (run-time panic) ---- *)
-Definition heuristic (i : inputs) : option f64 :=
+(* ---- the heuristic part: allocation.go lines 40-151, result = the float [next]
+   before the clamps (the divisor expectedAllocatePercent is never 0: it is replaced by 1) ---- *)
+Definition heuristic (i : inputs) : f64 :=
   let cur := ofZ (i_current i) in
   let usedf := ofZ (i_used i) in
   let tot := ofZ (i_total i) in
@@ -44,14 +44,13 @@ Definition heuristic (i : inputs) : option f64 :=
   let expectTotal := add32 (quot32 (mul32 up 95) 100) 5 in
   let minPct0 := toInt32 (fsub c70 (fdiv tot c100)) in
   let minPct := if minPct0 <? 60 then 60 else minPct0 in
-  let eap := add32 (quot32 (mul32 up (sub32 100 minPct)) 100) minPct in
-  if eap =? 0 then None else
+  let eap0 := add32 (quot32 (mul32 up (sub32 100 minPct)) 100) minPct in
+  let eap := if eap0 =? 0 then 1 else eap0 in
   let target0 := quot32 (mul32 expectTotal 100) eap in
   let target1 := add32 target0 (toInt32 (fsqrt (fdiv (fmul usedf c100) tot))) in
   let target := if target1 >? 100 then 100 else target1 in
   let reducing := if target >? 50 then sub32 target 5 else target in
   let increasing := if target >? 50 then target else add32 target 5 in
-  Some (
     if feq cur fzero then
       (if i_clients i <=? 10 then fmul remaining c0_05 else fdiv remaining clientsf)
     else if level =? 0 then
@@ -76,7 +75,7 @@ Definition heuristic (i : inputs) : option f64 :=
       let delta0 := fmul cur c0_3 in
       let delta := if level >? 100 then fmul delta0 c2 else delta0 in
       if flt delta remaining then fadd cur delta else fadd cur remaining
-    else cur).
+    else cur.
 
 (* ---- the clamps: allocation.go lines 147-166 ---- *)
 Definition clamp_tail (n1 : f64) (current total allocated : Z) : f64 :=
@@ -107,32 +106,32 @@ Definition calc_with (next : f64) (i : inputs) : Z * Z :=
   let nf := finalize next (i_current i) (i_total i) (i_allocated i) in
   (quota_of nf, match i_typ i with TBucket => burst_of nf (i_total i) (i_gburst i) | TMax => 0 end).
 
-Definition calc_next_quota (i : inputs) : option (Z * Z) :=
+Definition calc_next_quota (i : inputs) : Z * Z :=
   if i_count i then
-    Some (i_total i, match i_typ i with TBucket => i_gburst i | TMax => 0 end)
-  else
-    match heuristic i with
-    | None => None
-    | Some next => Some (calc_with next i)
-    end.
+    (i_total i, match i_typ i with TBucket => i_gburst i | TMax => 0 end)
+  else calc_with (heuristic i) i.
 
-(* ================= history layer (one upstream, one schema) ================= *)
+(* ================= history layer: one schema of one upstream ================= *)
+(* ratelimter.go: UpdateRateLimitConditionStatus replaces the instance's whole condition by the
+   answered items, calculateUpstreamCondition then re-adds, per schema and per limit member
+   (Max / QPS), the items of all stored conditions (saturating int32); calculateNextQuota reads
+   the member of the schema's current item type. *)
 
-Record hstate := {
-  h_typ : ftype;
+Record sstate := {
+  h_typ : ftype;                     (* current item type of the schema *)
   h_limit : Z;                       (* configured global limit (Max / QPS) *)
   h_burst : Z;                       (* configured global burst *)
-  h_quotas : list (Z * (Z * Z));     (* instance id -> (quota, burst) on record *)
-  h_rec : Z;                         (* allocated sum recorded in the upstream state condition *)
-  h_clients : list Z;                (* instances known to the client cache *)
-  h_extra : Z                        (* further heart-beating clients without conditions *)
+  h_quotas : list (Z * (Z * Z));     (* instance id -> (quota, burst) recorded with the current type *)
+  h_rec : Z;                         (* allocated sum of that member in the upstream state condition *)
+  h_oquotas : list (Z * (Z * Z));    (* items recorded with the other item type (left from before a type change) *)
+  h_orec : Z
 }.
 
-Inductive op :=
-| OReport (i used level uplevel : Z)     (* honest report; [uplevel] = upstream RequestLevel on record *)
-| OBeat (i : Z)                          (* heartbeat of an instance: it counts as a client *)
-| OSetLimit (limit burst : Z)
-| ORemove (i : Z).
+Inductive sop :=
+| SRep (i : Z) (typed count : bool) (used level uplevel clients : Z)
+    (* an honest report item: typed = it carries the schema's item type (else no limit member) *)
+| SDrop (i : Z) (recompute : bool)   (* i's condition goes / is replaced by one without this schema *)
+| SSet (t : ftype) (limit burst : Z).
 
 Fixpoint lookup (i : Z) (l : list (Z * (Z * Z))) : option (Z * Z) :=
   match l with
@@ -146,59 +145,74 @@ Fixpoint remove_inst (i : Z) (l : list (Z * (Z * Z))) : list (Z * (Z * Z)) :=
   end.
 Definition set_inst (i : Z) (v : Z * Z) (l : list (Z * (Z * Z))) := (i, v) :: remove_inst i l.
 Definition quota_sum (l : list (Z * (Z * Z))) : Z := sumZ (map (fun e => fst (snd e)) l).
+
+(* calculateUpstreamCondition adds the recorded quotas without wrapping around
+   (addInt32Saturated); for non-negative quotas any summation order gives this *)
+Definition sat32 (z : Z) : Z := Z.max (- two31) (Z.min z (two31 - 1)).
+
+(* what an honest instance reports as its current quota: what it holds of the item type it reports *)
+Definition current_of (s : sstate) (i : Z) (typed : bool) : Z :=
+  if typed then match lookup i (h_quotas s) with Some (q, _) => q | None => 0 end else 0.
+
+Definition report_inputs (s : sstate) (i : Z) (typed count : bool) (used level uplevel clients : Z) : inputs :=
+  {| i_typ := h_typ s; i_count := count; i_total := h_limit s; i_gburst := h_burst s;
+     i_allocated := h_rec s; i_uplevel := uplevel; i_current := current_of s i typed;
+     i_used := used; i_level := level; i_clients := clients |}.
+
+Definition sstep (s : sstate) (o : sop) : sstate * option (Z * Z) :=
+  match o with
+  | SRep i typed count used level uplevel clients =>
+      let qb := calc_next_quota (report_inputs s i typed count used level uplevel clients) in
+      let qs := set_inst i qb (h_quotas s) in
+      let os := remove_inst i (h_oquotas s) in        (* the stored condition is replaced *)
+      ({| h_typ := h_typ s; h_limit := h_limit s; h_burst := h_burst s;
+          h_quotas := qs; h_rec := sat32 (quota_sum qs);
+          h_oquotas := os; h_orec := sat32 (quota_sum os) |}, Some qb)
+  | SDrop i rc =>
+      let qs := remove_inst i (h_quotas s) in
+      let os := remove_inst i (h_oquotas s) in
+      ({| h_typ := h_typ s; h_limit := h_limit s; h_burst := h_burst s;
+          h_quotas := qs; h_rec := if rc then sat32 (quota_sum qs) else h_rec s;   (* stale after a clean-up *)
+          h_oquotas := os; h_orec := if rc then sat32 (quota_sum os) else h_orec s |}, None)
+  | SSet t n b =>
+      if ftype_eqb t (h_typ s)
+      then ({| h_typ := t; h_limit := n; h_burst := b; h_quotas := h_quotas s; h_rec := h_rec s;
+               h_oquotas := h_oquotas s; h_orec := h_orec s |}, None)
+      else ({| h_typ := t; h_limit := n; h_burst := b; h_quotas := h_oquotas s; h_rec := h_orec s;
+               h_oquotas := h_quotas s; h_orec := h_rec s |}, None)
+  end.
+
+Definition sinit (t : ftype) (limit burst : Z) : sstate :=
+  {| h_typ := t; h_limit := limit; h_burst := burst; h_quotas := []; h_rec := 0; h_oquotas := []; h_orec := 0 |}.
+
+(* ================= several schemas of one upstream ================= *)
+Record mstate := {
+  m_schemas : list (Z * sstate);     (* schema id -> state, in the order of the upstream's spec *)
+  m_clients : list Z;                (* instances known to the client cache *)
+  m_extra : Z                        (* further heart-beating clients without conditions *)
+}.
+
 Fixpoint zmem (i : Z) (l : list Z) : bool :=
   match l with [] => false | j :: r => if j =? i then true else zmem i r end.
 Definition zadd (i : Z) (l : list Z) : list Z := if zmem i l then l else i :: l.
 Fixpoint zremove (i : Z) (l : list Z) : list Z :=
   match l with [] => [] | j :: r => if j =? i then zremove i r else j :: zremove i r end.
 
-(* calculateUpstreamCondition adds the recorded quotas without wrapping around
-   (addInt32Saturated); for non-negative quotas any summation order gives this *)
-Definition sat32 (z : Z) : Z := Z.max (- two31) (Z.min z (two31 - 1)).
+(* an item of a report: schema, declared item type (None = no limit member), strategy, usage,
+   request level, and the upstream request level the server has on record for the schema *)
+Record mitem := { it_s : Z; it_typ : option ftype; it_count : bool; it_used : Z; it_level : Z; it_up : Z }.
 
-Definition current_of (s : hstate) (i : Z) : Z :=
-  match lookup i (h_quotas s) with Some (q, _) => q | None => 0 end.
+Fixpoint find_schema (sid : Z) (l : list (Z * sstate)) : option sstate :=
+  match l with [] => None | (k, s) :: r => if k =? sid then Some s else find_schema sid r end.
+Fixpoint find_item (sid : Z) (l : list mitem) : option mitem :=
+  match l with [] => None | it :: r => if it_s it =? sid then Some it else find_item sid r end.
 
-Definition report_inputs (s : hstate) (i used level uplevel : Z) : inputs :=
-  {| i_typ := h_typ s; i_count := false; i_total := h_limit s; i_gburst := h_burst s;
-     i_allocated := h_rec s; i_uplevel := uplevel; i_current := current_of s i;
-     i_used := used; i_level := level;
-     i_clients := h_extra s + Z.of_nat (List.length (zadd i (h_clients s))) |}.
-
-(* answer of one op: Some (quota, burst) for an answered report *)
-Definition step (s : hstate) (o : op) : hstate * option (Z * Z) :=
-  match o with
-  | OReport i used level uplevel =>
-      let s1 := {| h_typ := h_typ s; h_limit := h_limit s; h_burst := h_burst s; h_quotas := h_quotas s;
-                   h_rec := h_rec s; h_clients := zadd i (h_clients s); h_extra := h_extra s |} in
-      match calc_next_quota (report_inputs s i used level uplevel) with
-      | None => (s1, None)                 (* panic before anything is saved *)
-      | Some qb =>
-          let qs := set_inst i qb (h_quotas s) in
-          ({| h_typ := h_typ s; h_limit := h_limit s; h_burst := h_burst s; h_quotas := qs;
-              h_rec := sat32 (quota_sum qs);          (* int32 sum recomputed after the report *)
-              h_clients := zadd i (h_clients s); h_extra := h_extra s |}, Some qb)
-      end
-  | OBeat i =>
-      ({| h_typ := h_typ s; h_limit := h_limit s; h_burst := h_burst s; h_quotas := h_quotas s;
-          h_rec := h_rec s; h_clients := zadd i (h_clients s); h_extra := h_extra s |}, None)
-  | OSetLimit n b =>
-      ({| h_typ := h_typ s; h_limit := n; h_burst := b; h_quotas := h_quotas s;
-          h_rec := h_rec s; h_clients := h_clients s; h_extra := h_extra s |}, None)
-  | ORemove i =>
-      ({| h_typ := h_typ s; h_limit := h_limit s; h_burst := h_burst s;
-          h_quotas := remove_inst i (h_quotas s);
-          h_rec := h_rec s;                           (* stale until the next report *)
-          h_clients := zremove i (h_clients s); h_extra := h_extra s |}, None)
+(* "upstream flow control item type %s not equal to instance item type %s" *)
+Definition item_mismatch (M : mstate) (it : mitem) : bool :=
+  match it_typ it, find_schema (it_s it) (m_schemas M) with
+  | Some t, Some s => negb (ftype_eqb t (h_typ s))
+  | _, _ => false
   end.
+Definition report_mismatch (M : mstate) (items : list mitem) : bool := existsb (item_mismatch M) items.
 
-Definition init (t : ftype) (limit burst extra : Z) : hstate :=
-  {| h_typ := t; h_limit := limit; h_burst := burst; h_quotas := []; h_rec := 0;
-     h_clients := []; h_extra := extra |}.
-
-(* run: per op the answer and the state after it *)
-Fixpoint run (s : hstate) (ops : list op) : list (option (Z * Z) * hstate) :=
-  match ops with
-  | [] => []
-  | o :: r => let (s', a) := step s o in (a, s') :: run s' r
-  end.
+Definition n_clients (M : mstate) : Z := m_extra M + Z.of_nat (List.length (m_clients M)).
